@@ -345,6 +345,9 @@ func (fr *Frame) refFacts(term string, t types.Type, st *State) {
 			le(z, fmt.Sprintf("(soff %s)", term)), le(z, fmt.Sprintf("(slen_ %s)", term)),
 			le(fmt.Sprintf("(slen_ %s)", term), fmt.Sprintf("(scap %s)", term)),
 			implies(fmt.Sprintf("(= (sref %s) 0)", term), eq(fmt.Sprintf("(scap %s)", term), z))))
+		if !vc.isBV() {
+			vc.assume(fmt.Sprintf("(<= (+ (soff %s) (scap %s)) %d)", term, term, int64(1)<<48))
+		}
 		if vc.isBV() {
 			vc.assume(fmt.Sprintf("(bvslt %s (_ bv%d 64))", add(fmt.Sprintf("(soff %s)", term), fmt.Sprintf("(scap %s)", term)), int64(1)<<40))
 			vc.assume(fmt.Sprintf("(bvslt %s (_ bv%d 64))", fmt.Sprintf("(soff %s)", term), int64(1)<<40))
